@@ -1252,5 +1252,10 @@ class _CompiledImporter:
         elif isinstance(cell_value, str) and cell_value.startswith('='):
             return ExcelOpxWrapper.RangeData(address, cell_value, None)
 
+        elif isinstance(cell_value, float):
+            # the yaml loader produces a float subclass, for which python math
+            # (ie: sum()) is not bit for bit the same as for a float
+            return ExcelOpxWrapper.RangeData(address, '', float(cell_value))
+
         else:
             return ExcelOpxWrapper.RangeData(address, '', cell_value)
